@@ -48,6 +48,10 @@ def run(report, tier, seed):
                             ndjson=False, sanitize=not quick).prepare()
         dlab.directed = True
         labs.append(dlab)
+        # arrays of every element encoding (scalars, variable-length integers, flat records, records with enum / flags fields) in every array form
+        alab = codeclab.Lab(sc, ybin, 1001, modelgen.Gen(seed * 100003 + 1001), pkg=modelgen.arrays_package(), ndjson=False, sanitize=not quick).prepare()
+        alab.directed = True
+        labs.append(alab)
         for lab in labs:
             if not lab.ok:
                 report.violation(f"{lab.stage}:model", {"seed": seed, "model_index": lab.idx, "error": lab.err,
